@@ -22,9 +22,11 @@ const version = "0.1.8"
 
 var (
 	flagExecute string
-	file        string
-	args        []string
-	e           *env.Env
+	// flagExecuteSet reports that -e was given; its source may be empty
+	flagExecuteSet bool
+	file           string
+	args           []string
+	e              *env.Env
 )
 
 func main() {
@@ -32,7 +34,7 @@ func main() {
 
 	parseFlags()
 	setupEnv()
-	if flagExecute != "" || flag.NArg() > 0 {
+	if flagExecuteSet || flagExecute != "" || flag.NArg() > 0 {
 		exitCode = runNonInteractive()
 	} else {
 		exitCode = runInteractive()
@@ -45,13 +47,18 @@ func parseFlags() {
 	flagVersion := flag.Bool("v", false, "prints out the version and then exits")
 	flag.StringVar(&flagExecute, "e", "", "execute the Anko code")
 	flag.Parse()
+	flag.Visit(func(f *flag.Flag) {
+		if f.Name == "e" {
+			flagExecuteSet = true
+		}
+	})
 
 	if *flagVersion {
 		fmt.Println(version)
 		os.Exit(0)
 	}
 
-	if flagExecute != "" || flag.NArg() < 1 {
+	if flagExecuteSet || flagExecute != "" || flag.NArg() < 1 {
 		args = flag.Args()
 		return
 	}
@@ -68,7 +75,7 @@ func setupEnv() {
 
 func runNonInteractive() int {
 	var source string
-	if flagExecute != "" {
+	if flagExecuteSet || flagExecute != "" {
 		source = flagExecute
 	} else {
 		sourceBytes, err := ioutil.ReadFile(file)
